@@ -26,11 +26,14 @@ property is silent the model allows both outcomes ("..name" as first segment; a 
 root and comes back into a configured directory); file="" (IndexError, finding #11 of C07) is not
 generated.
 """
+import array
+import hashlib
 import json
 import multiprocessing
 import os
 import shutil
 import sys
+import zlib
 
 from . import core
 from .core import MachineryError
@@ -92,30 +95,37 @@ def read_rows(res):
     return world, rows
 
 
+def h64(u):
+    """Stable 64-bit hash of a URI string (independent of PYTHONHASHSEED and of the process)."""
+    return int.from_bytes(hashlib.blake2b(u.encode("utf-8"), digest_size=8).digest(), "big")
+
+
 def gen_uris(maxsegs, segs=SEGS):
-    """The harness' own enumeration of the URI strings (inputs only), to check that no exported row was lost."""
-    out = set()
-    frontier = [((), 0)]
-    out.add("")
-    while frontier:
-        nxt = []
-        for toks, n in frontier:
-            for t in segs + SEPS:
-                if t in SEPS:
-                    n2 = n + (1 if toks and toks[-1] in SEPS else 0)
-                else:
-                    if toks and toks[-1] not in SEPS:
-                        continue
-                    n2 = n + 1
-                if n2 > maxsegs:
-                    continue
-                s = "".join(toks + (t,))
-                if s in out:
-                    continue
-                out.add(s)
-                nxt.append((toks + (t,), n2))
-        frontier = nxt
-    return out
+    """The harness' own enumeration of the URI strings (inputs only), as a generator -- nothing is stored.
+    Token sequences without adjacent names spell distinct strings, so no de-duplication is needed."""
+    toks_all = list(segs) + SEPS
+
+    def rec(prefix, last_sep, n):
+        yield prefix
+        for t in toks_all:
+            if t in SEPS:
+                n2 = n + (1 if last_sep else 0)
+                if n2 <= maxsegs:
+                    yield from rec(prefix + t, True, n2)
+            elif (last_sep or prefix == "") and n + 1 <= maxsegs:
+                yield from rec(prefix + t, False, n + 1)
+    # a leading separator does not count; rec treats "last_sep" of the empty prefix as False
+    return rec("", False, 0)
+
+
+def uri_fingerprint(maxsegs, segs=SEGS):
+    """(count, sum of h64 mod 2^64) of the URI set, to check that TLC exported exactly this set."""
+    n = 0
+    acc = 0
+    for u in gen_uris(maxsegs, segs):
+        n += 1
+        acc = (acc + h64(u)) & 0xFFFFFFFFFFFFFFFF
+    return n, acc
 
 
 # --------------------------------------------------------------------------- audit
@@ -414,19 +424,62 @@ SITE_OF_MODE = {"inc": "include", "gt": "Namespace.get_template", "ns": "Namespa
 
 
 # --------------------------------------------------------------------------- replay worker
-def _replay_chunk(job):
-    (name, base, world, modon, items, modes_all_upto, thin) = job
+def parse_row(line):
+    """One exported line -> (kind, value): ("world", dict) | ("row", (uri, {ctx: set(outcomes)})) | (None, None)."""
+    if not line.startswith('"{'):
+        return None, None
+    try:
+        v = json.loads(json.loads(line))
+    except ValueError:
+        raise MachineryError("unreadable export line from TLC: %r" % line[:200])
+    if "world" in v:
+        return "world", v["world"]
+    if "o" in v and isinstance(v["o"], dict):
+        return "row", (v["u"], {c: set(o) for c, o in v["o"].items()})
+    return None, None
+
+
+def slice_lines(path, start, end):
+    """The complete lines of the file that BEGIN in [start, end) -- each worker reads its own slice, the parent
+    never holds the export."""
+    with open(path, "rb") as f:
+        if start > 0:
+            f.seek(start - 1)
+            f.readline()                  # the rest of the line that began before `start` (or just its newline)
+        while True:
+            pos = f.tell()
+            if pos >= end:
+                break
+            line = f.readline()
+            if not line:
+                break
+            yield line.decode("utf-8").rstrip("\n")
+
+
+def _replay_slice(job):
+    (name, base, path, start, end, world, modon, modes_all_upto, thin) = job
+    import gc
     _install_audit(base)
     wl = World(os.path.join(base, "L"), world, modon)
     wt = World(os.path.join(base, "Tm"), world, modon, with_callers=False, cwd=False)
     mism = []
+    hashes = array.array("Q")
     n = 0
-    for idx, (u, exp) in enumerate(items):
-        if idx % 1500 == 1499:
+    nrows = 0
+    for line in slice_lines(path, start, end):
+        kind, val = parse_row(line)
+        if kind != "row":
+            continue
+        u, exp = val
+        nrows += 1
+        hashes.append(h64(u))
+        if nrows % 1500 == 0:
             wl.fresh()
             wt.fresh()
             wl.wipe_modules()
             wt.wipe_modules()
+            gc.collect()
+        idx = zlib.crc32(u.encode("utf-8"))          # stable per URI: which sampled forms apply does not depend on slicing
         nseg = sum(1 for t in tokens(u) if t not in SEPS)
         for ci, (ctx, allowed) in enumerate(sorted(exp.items())):
             if not allowed:
@@ -452,12 +505,12 @@ def _replay_chunk(job):
                 ob = fn()
                 n += 1
                 bad = judge(w, site, allowed, ob)
-                if bad and len(mism) < 200:
+                if bad and len(mism) < 40:
                     d = dict(bad[1])
                     d.pop("log", None)
                     mism.append({"site": site, "mode": bad[0], "uri": u, "ctx": ctx, "allowed": sorted(allowed), "observed": d})
     shutil.rmtree(base, ignore_errors=True)
-    return name, n, mism
+    return name, n, mism, nrows, hashes.tobytes()
 
 
 def report(run, mism, cfgname, source):
@@ -602,14 +655,56 @@ def check(run):
             ("enum-E", "E", 4, SEGS, ["direct", "c1", "c3"], True, 2, 4),
             ("enum-R", "R", 4, SEGS, ["direct", "c2", "r1"], True, 2, 4),
         ]
-    with ThreadPoolExecutor(max_workers=12) as ex:
+    # Memory: at most `conc` JVMs at a time, each with an explicit heap; the rows of the enumerations go to a file
+    # (TLC -userFile), never through this process.
+    conc = 3 if thorough else 4
+    rowsdir = run.subdir("rows")
+    rowfile = {}
+    plan_of = {pl[0]: pl for pl in plans}
+    exported = {}
+    worlds = {}
+    pending = []
+    pool = multiprocessing.get_context("fork").Pool(nproc)     # forked while this process is still small
+
+    def dispatch(name, res):
+        """An enumeration finished: hand byte slices of its rows file to the replay workers (they run while the
+        remaining TLC jobs are still going)."""
+        (_, cfg, maxsegs, segs, ctxs, modon, modes_upto, nw) = plan_of[name]
+        if res.violated:
+            return
+        path = rowfile[name]
+        world = None
+        head = {}
+        with open(path, encoding="utf-8") as f:
+            for k, line in enumerate(f):
+                kind, val = parse_row(line.rstrip("\n"))
+                if kind == "world":
+                    world = val
+                elif kind == "row" and len(head) < 4000:
+                    head[val[0]] = val[1]
+                if world is not None and (len(head) >= 4000 or k > 20000):
+                    break
+        if world is None:
+            raise MachineryError("%s: TLC did not export the world" % name)
+        worlds[cfg] = world
+        exported[name] = (world, head, modon, cfg, maxsegs, segs)
+        size = os.path.getsize(path)
+        nsl = max(1, min(nproc * 6, size // 300000 + 1))
+        step = size // nsl + 1
+        for k in range(nsl):
+            job = (name, os.path.join(run.subdir("world-" + name), "p%d" % k), path, k * step, min(size, (k + 1) * step),
+                   world, modon, modes_upto, not thorough)
+            pending.append(pool.apply_async(_replay_slice, (job,)))
+    with ThreadPoolExecutor(max_workers=conc) as ex:
         futs = {}
         for (name, cfg, maxsegs, segs, ctxs, modon, modes_upto, nw) in plans:       # the long ones first
+            rowfile[name] = os.path.join(rowsdir, name + ".txt")
             futs[name] = ex.submit(run.tlc, "Enum_Containment", enum_cfg(maxsegs, cfg, ctxs, modon, segs), name=name,
-                                   timeout=2400, workers=wk(nw), count=False, heap="3g")
+                                   timeout=2400, workers=wk(min(nw, 6)), count=False, heap="1500m" if maxsegs >= 4 else "1g",
+                                   extra_args=["-userFile", rowfile[name]])
         for (name, cfg, ctxs) in mc_jobs:
             futs[name] = ex.submit(run.tlc, "MC_Containment", mc_cfg(mc_bound, cfg, ctxs), name=name, coverage=True,
-                                   timeout=1500, workers=wk(3), count=False, heap="2g")
+                                   timeout=1500, workers=wk(3), count=False, heap="1g")
         # witness: some enumerated URI does make the probe hit a file outside the roots (so the refusal in
         # Template.__init__ is what keeps it out) -- a negated invariant that must be violated
         futs["mc-witness"] = ex.submit(run.tlc, "MC_Containment",
@@ -620,7 +715,17 @@ def check(run):
         futs["nouri"] = ex.submit(run.tlc, "Enum_Containment", enum_cfg(0, "A", ["template"], True, start="StartFromFile"),
                                   name="nouri", timeout=600, workers=1, count=False, heap="1g",
                                   env={"C09_START": "start.json"}, extra_files={"start.json": json.dumps([tokens(f) for f in nouri])})
-        results = {n: f.result() for n, f in futs.items()}
+        from concurrent.futures import as_completed
+        results = {}
+        names = {f: n for n, f in futs.items()}
+        try:
+            for f in as_completed(list(futs.values())):
+                results[names[f]] = f.result()
+                if names[f] in plan_of:
+                    dispatch(names[f], results[names[f]])
+        except BaseException:
+            pool.terminate()
+            raise
     import time as _t
     run.extra["phase_s"] = {"tlc": round(_t.time() - run.t0, 1)}
     for n, res in results.items():
@@ -630,7 +735,6 @@ def check(run):
 
     # ---------------------------------------------------------------- 1. the step machine, exhaustively
     acts = {}
-    worlds = {}
     for (name, cfg, ctxs) in mc_jobs:
         res = results[name]
         if res.violated:
@@ -650,44 +754,47 @@ def check(run):
         raise MachineryError("vacuous: no enumerated URI makes the probe hit a file outside the roots")
 
     # ---------------------------------------------------------------- 2. R: enumerate, export, replay
-    jobs = []
-    exported = {}
+    # Each worker reads its own byte slice of the exported file; this process keeps counters, URI hashes and a few
+    # mismatches only.
     for (name, cfg, maxsegs, segs, ctxs, modon, modes_upto, nw) in plans:
-        res = results[name]
-        if res.violated:
-            run.spec_violation(res, "TLC: the design model violates containment for some URI (%s)" % name)
-            continue
-        world, rows = read_rows(res)
-        worlds[cfg] = world
-        mine = gen_uris(maxsegs, segs)
-        if set(rows) != mine:
-            raise MachineryError("%s: TLC exported %d URIs, the harness enumerates %d (difference e.g. %s)"
-                                 % (name, len(rows), len(mine), sorted(set(rows) ^ mine)[:5]))
-        exported[name] = (world, rows, modon, cfg, maxsegs)
-        run.extra.setdefault("uris_enumerated", {})[name] = len(rows)
-        items = sorted(rows.items())
-        run.rng.shuffle(items)          # balance the load; verdicts do not depend on the order
-        per = 6000
-        for k in range(0, len(items), per):
-            jobs.append((name, os.path.join(run.subdir("world-" + name), "p%d" % (k // per)), world, modon, items[k:k + per], modes_upto, not thorough))
-    ctxmp = multiprocessing.get_context("fork")
-    with ctxmp.Pool(nproc) as pool:
-        out = pool.map(_replay_chunk, jobs, chunksize=1)
+        if results[name].violated:
+            run.spec_violation(results[name], "TLC: the design model violates containment for some URI (%s)" % name)
+    seen = {name: set() for name in exported}
+    allm = {name: [] for name in exported}
+    try:
+        for ar in pending:
+            (name, n, mism, nrows, hb) = ar.get(core.tscale(3600))
+            run.traces += n
+            d = run.extra.setdefault("requests_replayed", {})
+            d[name] = d.get(name, 0) + n
+            hs = array.array("Q")
+            hs.frombytes(hb)
+            seen[name].update(hs)
+            if len(allm[name]) < 400:
+                allm[name].extend(mism)
+    finally:
+        pool.terminate()
+        pool.join()
     run.extra["phase_s"]["replay_done"] = round(_t.time() - run.t0, 1)
-    for (name, n, mism) in out:
-        run.traces += n
-        d = run.extra.setdefault("requests_replayed", {})
-        d[name] = d.get(name, 0) + n
     for name in exported:
-        world, rows, modon, cfg, maxsegs = exported[name]
-        mism = [m for (nm, n, ms) in out if nm == name for m in ms]
-        report(run, mism, cfg, "every URI of <= %d segments enumerated by TLC (%s), replayed" % (maxsegs, name))
+        world, head, modon, cfg, maxsegs, segs = exported[name]
+        cnt, acc = uri_fingerprint(maxsegs, segs)
+        got = seen.pop(name)
+        if len(got) != cnt or (sum(got) & 0xFFFFFFFFFFFFFFFF) != acc:
+            raise MachineryError("%s: TLC exported %d distinct URIs, the harness enumerates %d (or the sets differ)" % (name, len(got), cnt))
+        del got
+        run.extra.setdefault("uris_enumerated", {})[name] = cnt
+        report(run, allm[name], cfg, "every URI of <= %d segments enumerated by TLC (%s), replayed" % (maxsegs, name))
+        try:
+            os.remove(rowfile[name])
+        except OSError:
+            pass
     if "enum-A" in exported:
-        world, rows, modon, cfg, maxsegs = exported["enum-A"]
-        negative_controls(run, world, rows, modon)
-        for u in ("\\..\\a", "sub/..//../..a", "a../a"):
-            if u in rows:
-                run.sample({"direction": "R", "uri": u, "expected": {c: sorted(s) for c, s in rows[u].items()}})
+        world, head, modon, cfg, maxsegs, segs = exported["enum-A"]
+        negative_controls(run, world, head, modon)
+        for u in ("\\..\\a", "sub/..//../..a", "a../a", "\\a"):
+            if u in head:
+                run.sample({"direction": "R", "uri": u, "expected": {c: sorted(x) for c, x in head[u].items()}})
 
     # ---------------------------------------------------------------- 2b. Template(filename=...) without uri
     if not results["nouri"].violated:
